@@ -533,6 +533,12 @@ func checkC02(an *Analysis, add func(Violation)) {
 
 func checkC03(an *Analysis, add func(Violation)) {
 	for _, c := range an.Calls {
+		// "SetAddress ... succeeds once the request is sent": not before, and not instead
+		if c.St.Op == model.SetAddress && c.Reject == "" && c.Begin != nil && c.End != nil && c.Rec != nil && !c.Rec.Obs.Failed() && c.Rec.Obs.Panic == "" && len(c.Sends) == 0 {
+			add(Violation{Code: "setaddress-not-sent", Sig: "C03:setaddress-not-sent:" + c.Route.Path, Task: c.Task, Step: c.Step,
+				Detail: fmt.Sprintf("SetAddress serial=%d path=%s reported success although no request was sent", c.St.Args.Serial, c.Route.Path)})
+			continue
+		}
 		if !c.judged() || c.Rec.Obs.Panic != "" {
 			continue
 		}
